@@ -86,6 +86,30 @@ func exprDepth(v ssa.Value, subst map[*ssa.Parameter]string, depth int) string {
 	case *ssa.Extract:
 		return exprDepth(x.Tuple, subst, d) + "#" + fmt.Sprint(x.Index)
 	case *ssa.Slice:
+		if al, ok := x.X.(*ssa.Alloc); ok && al.Comment == "varargs" && x.Low == nil && x.High == nil {
+			// variadic argument pack: render its elements
+			elems := map[int64]string{}
+			max := int64(-1)
+			for _, ref := range *al.Referrers() {
+				if ia, ok := ref.(*ssa.IndexAddr); ok {
+					if k, isC := ia.Index.(*ssa.Const); isC {
+						for _, r2 := range *ia.Referrers() {
+							if st, ok := r2.(*ssa.Store); ok && st.Addr == ssa.Value(ia) {
+								elems[k.Int64()] = exprDepth(st.Val, subst, d)
+								if k.Int64() > max {
+									max = k.Int64()
+								}
+							}
+						}
+					}
+				}
+			}
+			parts := []string{}
+			for i := int64(0); i <= max; i++ {
+				parts = append(parts, elems[i])
+			}
+			return strings.Join(parts, ",") + "..."
+		}
 		s := exprDepth(x.X, subst, d) + "["
 		if x.Low != nil {
 			s += exprDepth(x.Low, subst, d)
